@@ -70,12 +70,16 @@ type xferSpec struct {
 	noOffset  bool // do not judge the File offset (C01 speaks about bytes and counts; offsets are C12/C13)
 	short     int  // k+1: the first READ of chunk k is answered with one byte only although the file goes on (sequential reads ask for the rest)
 	failRest  bool // ... and the request for the rest of that chunk fails
+	noType    bool // the server reports permission bits only for the file (no file-type bits: it is not known to be regular)
 }
 
 func (s xferSpec) String() string {
 	sh := ""
 	if s.short > 0 {
 		sh = fmt.Sprintf(" short-reply@chunk%d rest-fails=%v", s.short-1, s.failRest)
+	}
+	if s.noType {
+		sh += " mode-without-type-bits"
 	}
 	return fmt.Sprintf("%s conc=%v P=%d K=%d file=%d req=%d off=%d fail=%v permute=%v cut=%d fw=%d fwEOF=%v%s", s.api, s.conc, s.P, s.K, s.fileLen, s.reqLen, s.off, s.fail, s.permute, s.cut, s.failWrite, s.fwEOF, sh)
 }
@@ -119,6 +123,9 @@ func (s xferSpec) run(res *xferResult, envOut **cliEnv) {
 		e.peer.hpath["h1"] = "/f"
 		for _, i := range s.fail {
 			e.peer.FailOff[uint64(s.off+i*s.P)] = failMsg(i)
+		}
+		if s.noType {
+			e.peer.FileMode = 0o644
 		}
 		if s.short > 0 {
 			e.peer.ShortAt[uint64(s.off+(s.short-1)*s.P)] = 1
@@ -518,6 +525,15 @@ func c13EOFSpecs() []xferSpec {
 			}
 		}
 	}
+	// WriteTo with concurrent reads enabled on a file the server does not report as regular (mode word without type bits):
+	// only regular files may be fetched by the chunk-per-worker path, where a short reply means end of file; anything else
+	// goes through the sequential path, which asks for the rest
+	for k := 0; k < 3; k++ {
+		for _, fr := range []bool{false, true} {
+			out = append(out, xferSpec{api: "WriteTo", conc: true, P: 2, K: 2, fileLen: 6, reqLen: 6, short: k + 1, failRest: fr, noType: true, permute: true, cut: -1})
+		}
+	}
+	out = append(out, xferSpec{api: "WriteTo", conc: true, P: 2, K: 2, fileLen: 6, reqLen: 6, noType: true, fail: []int{1}, permute: true, cut: -1})
 	for _, conc := range []bool{true, false} {
 		// request 8 bytes of a 5-byte file: chunks 0,1 full, chunk 2 short (1 byte), chunk 3 beyond EOF
 		out = append(out, xferSpec{api: "ReadAt", conc: conc, P: 2, K: 3, fileLen: 5, reqLen: 8, permute: true, cut: -1})
